@@ -3,11 +3,14 @@ package rig
 import (
 	"context"
 	"crypto/x509"
+	"errors"
 	"fmt"
 	"net"
 	"net/http"
 	"net/url"
+	"reflect"
 	"time"
+	"unsafe"
 
 	"github.com/saucelabs/forwarder"
 	"github.com/saucelabs/forwarder/log"
@@ -33,6 +36,47 @@ type ProxyOpts struct {
 	Credentials []*forwarder.HostPortUser
 	// Logger defaults to the nop logger.
 	Logger log.StructuredLogger
+	// OnAccept, when set, is shown every connection the proxy's own listeners hand out (exactly what
+	// forwarder.Listener.Accept returned: the tracked connection, or the tls.Conn over it) before
+	// the proxy serves it. The listeners are private to HTTPProxy, so they are reached by
+	// reflection; StartProxy fails with ErrNoListenerTap when that is no longer possible.
+	OnAccept func(net.Conn)
+}
+
+// ErrNoListenerTap: the proxy's listener slice could not be reached (field renamed or retyped).
+var ErrNoListenerTap = errors.New("rig: cannot tap the proxy's listeners")
+
+type tapListener struct {
+	net.Listener
+	fn func(net.Conn)
+}
+
+func (t *tapListener) Accept() (net.Conn, error) {
+	c, err := t.Listener.Accept()
+	if err == nil {
+		t.fn(c)
+	}
+	return c, err
+}
+
+func tapListeners(hp *forwarder.HTTPProxy, fn func(net.Conn)) (err error) {
+	defer func() {
+		if r := recover(); r != nil {
+			err = fmt.Errorf("%w: %v", ErrNoListenerTap, r)
+		}
+	}()
+	f := reflect.ValueOf(hp).Elem().FieldByName("listeners")
+	if !f.IsValid() || f.Kind() != reflect.Slice {
+		return ErrNoListenerTap
+	}
+	ls, ok := reflect.NewAt(f.Type(), unsafe.Pointer(f.UnsafeAddr())).Elem().Interface().([]net.Listener)
+	if !ok || len(ls) == 0 {
+		return ErrNoListenerTap
+	}
+	for i := range ls { // shares the backing array with the proxy's slice
+		ls[i] = &tapListener{Listener: ls[i], fn: fn}
+	}
+	return nil
 }
 
 // Proxy is a running forwarder proxy.
@@ -94,6 +138,12 @@ func StartProxy(o ProxyOpts) (*Proxy, error) {
 	hp, err := forwarder.NewHTTPProxy(cfg, pr, cm, rt, lg, nil)
 	if err != nil {
 		return nil, fmt.Errorf("proxy: %w", err)
+	}
+	if o.OnAccept != nil {
+		if err := tapListeners(hp, o.OnAccept); err != nil {
+			hp.Close()
+			return nil, err
+		}
 	}
 	addrs, ok := hp.Addr()
 	if !ok || len(addrs) == 0 {
